@@ -322,6 +322,8 @@ static void engine_fault_impl(RunCtx& cx) {
                 if (is_faulted_output) {
                     if (p.closed_raw[k] != p1.closed_raw[k]) {
                         cx.tag(p.plan.sw.fd_output ? "kind-fd" : "kind-name");
+                        cx.violation("C10", "C10/I17/byte-count-under-write-fault", mo.name + ": the calls returned normally (their counts add up to the complete output of " + std::to_string(p1.closed_raw[k].size()) +
+                                                                                      " raw bytes) but only " + std::to_string(p.closed_raw[k].size()) + " raw bytes reached the output");
                         V("I15/unreported-loss", "rotate_output returned normally although " + mo.name + " lost bytes (" + std::to_string(p.closed_raw[k].size()) + " bytes on the medium, " +
                                                      std::to_string(p1.closed_raw[k].size()) + " in the fault-free run) and no exception had been delivered");
                     } else {
@@ -425,6 +427,7 @@ static void engine_fault_impl(RunCtx& cx) {
                         cx.violation("C02", "C02/I03/nonempty-without-blocks-after-write-fault", d);
                         cx.violation("C13", "C13/I12/output-after-write-fault-not-self-contained", d);
                         cx.violation("C10", "C10/I17/byte-count-after-write-fault", d + " (the calls since it was opened returned 0 bytes)");
+                        if (p.plan.sw.compression) cx.violation("C14", "C14/I13/compressed-output-after-write-fault-differs", d);
                     } else cx.ctr->add("probe.intermediate_recovery_output_empty");
                 }
             }
@@ -441,6 +444,7 @@ static void engine_fault_impl(RunCtx& cx) {
                 auto also = [&](const std::string& d) {
                     cx.violation("C02", "C02/I02/output-after-write-fault-invalid", d);
                     cx.violation("C13", "C13/I12/output-after-write-fault-not-self-contained", d);
+                    if (p.plan.sw.compression) cx.violation("C14", "C14/I13/compressed-output-after-write-fault-differs", d);
                 };
                 if (dec && w + close_ret != plain.size())
                     cx.violation("C10", "C10/I17/byte-count-after-write-fault", rec_name + ": write_block + rotate_output returned " + std::to_string(w + close_ret) + " bytes for an output of " + std::to_string(plain.size()) + " uncompressed bytes");
